@@ -241,6 +241,29 @@ def build():
                   ("subscriptions of the test and of the chosen branch",
                    "result[1] == SUBS(node.test) + (SUBS(node.body) if truth(PY(node.test)) else SUBS(node.orelse))")],
          raises=ERR, modifies=[])
+    C.finite_checks.append(common.native_demo_check("c16_tuple_expression.py", "tuple expressions evaluate like Python, "
+                                                                             "with and without subscription"))
+    C.finite_checks.append(common.native_demo_check(
+        "c16_inherited_monitored_attribute.py",
+        "a subscription to a monitored attribute that a monitored class inherits from a monitored base (magnet.enabled) "
+        "is completed when the attribute changes"))
+    TUP = ObjS("TupleNode", elts=ListOf(NODE, 2))
+    C.cls("TupleNode", fields={})
+
+    def is_pair_of(I, v, a, b):
+        v = I.force(v)
+        if v.tag != "tuple" or len(v.items) != 2:
+            return VBool(False)
+        return VBool(z3.And(I.eq(v.items[0], a), I.eq(v.items[1], b)))
+    C.helpers["is_pair_of"] = is_pair_of
+    C.helpers["is_subs_list"] = lambda I, v: VBool(I.force(v).tag == "list")
+    C.fn("BasePlaceholderManager._eval_tuple", params=dict(node=TUP, variables=VARS, subscribe=Bool),
+         ensures=[("TU1: a tuple expression evaluates like Python: ONE (value, subscriptions) pair whose value is the tuple of "
+                   "the element values (not a tuple of per-element pairs)",
+                   "is_pair_of(result[0], PY(node.elts[0]), PY(node.elts[1])) and is_subs_list(result[1])"),
+                  ("every element is evaluated once, left to right", "evaluated_in_order(node.elts[0], node.elts[1])"),
+                  ("subscriptions of all elements", "result[1] == SUBS(node.elts[0]) + SUBS(node.elts[1])")],
+         raises=ERR, modifies=[], bounded="tuples of exactly 2 elements (the evaluation is a loop over the elements)")
     BOP = ObjS("BoolOp", op=ObjS("AstOp"), values=ListOf(NODE, 3))
     C.cls("BoolOp", fields={})
     C.fn("BasePlaceholderManager._eval_bool_op", params=dict(node=BOP, variables=VARS, subscribe=Bool),
